@@ -91,7 +91,8 @@ def proto_run(rep, prop, tier, bdir, cases, oracle, model_driver="proto", label=
                     small = ddmin(case, spec_fails, max_iter=120)
                 except Exception:
                     pass
-                p = rep.replay_file("spec_%d.case" % (b0 + ci), "# %s at op %d (%s)\n" % (text, k, case[min(k, len(case) - 1)]) + "\n".join(small) + "\n")
+                p = rep.replay_file("spec_%d.case" % (b0 + ci), "# %s at op %d (%s)\n" % (text, k, case[min(k, len(case) - 1)]) + "\n".join(small) + "\n"
+                                    + ("# ---- the case as generated (before shrinking):\n" + "".join("# %s\n" % l for l in case) if small != case else ""))
                 rep.violation(p, "%s: %s (op %d: %s)" % (label, text, k, case[min(k, len(case) - 1)][:100]))
                 continue
             for k, line in enumerate(case):
